@@ -21,6 +21,7 @@ AllocPats ==
   CASE PatSet = "small" -> {<<>>, <<0>>, <<0, 1>>, <<0, 1, 1>>}
     [] PatSet = "c02"   -> {<<0, 1>>, <<0, 1, 0>>}
     [] PatSet = "q"     -> {<<0, 1, 0>>}
+    [] PatSet = "sw"    -> {<<0, 1, 0>>}
     [] PatSet = "sim"   -> {<<>>, <<1>>, <<0, 1>>, <<0, 1, 2>>, <<0, 1, 2, 0>>, <<1, 1, 0, 2, 1>>, <<2, 0, 1, 1, 0, 2>>}
 
 NewH == CHOOSE d \in Handles \ Live : \A e \in Handles \ Live : d <= e
@@ -33,7 +34,7 @@ Offs(h) == IF Rand
                  THEN RandomElement((-(Size(h) + 2))..(Size(h) + 2))
                  ELSE RandomElement(Inside(Size(h)))}
            ELSE IF Dom = "in" THEN Inside(Size(h)) ELSE (-(Size(h) + 1))..(Size(h) + 1)
-Szs(h) == IF IsLast /\ LastSz # {} THEN LastSz
+Szs(h) == IF (IsLast \/ (PatSet = "sw" /\ step = 1)) /\ LastSz # {} THEN LastSz
           ELSE IF Rand
           THEN {IF Dom = "all" /\ RandomElement(1..4) = 1 THEN RandomElement(-1..(Size(h) + 2))
                                            ELSE RandomElement(-1..((Size(h) + 1) \div 2))}
@@ -43,8 +44,13 @@ InR(h, off, sz) == Dom = "in" => RangeDom(Size(h), off, sz)
 InRz(h, sk, sz) == Dom = "in" => ResizeDom(Size(h), sk, sz)
 InC(h, sk, sz) == Dom = "in" => CopyDom(Size(h), sk, sz)
 Starts(h) == Pick(0..(Size(h) + 1))
-On(op) == op \in Ops /\ ((IsLast /\ LastOps # {}) => op \in LastOps)
-ObsOn(op) == On(op) /\ (ObsLast => IsLast)
+\* PatSet = "sw" ("sandwich" emission): two blocks; the first call appends one to the other (a segmented
+\* block), the second is a read of one octet somewhere (it moves the offset cache of the real code), then
+\* any call, then the last read: defects that need a cache pointing into a later segment
+SW == PatSet = "sw"
+On(op) == /\ op \in Ops /\ ((IsLast /\ LastOps # {}) => op \in LastOps)
+          /\ (SW /\ step = 0 => op = "append") /\ (SW /\ step = 1 => op = "rd1")
+ObsOn(op) == On(op) /\ (ObsLast => (IsLast \/ (SW /\ step = 1)))
 FindWords == {<<a, b>> : a \in Letters, b \in Letters} \cup {<<0, 1, 1>>, <<1, 0, 1>>}
 MatchArgs == {<<<<0>>, <<15>>>>, <<<<0, 1>>, <<15, 15>>>>, <<<<1>>, <<1>>>>, <<<<0, 0>>, <<0, 2>>>>,
               <<<<>>, <<>>>>, <<<<0, 1, 0>>, <<15, 1, 0>>>>}
